@@ -40,9 +40,12 @@ def check_regions(src, node):
         if ch == "\n":
             starts.append(i + 1)
 
+    src_lines = src.split("\n")
+
     def pos(ln, col):
-        # ast columns are utf-8 byte offsets; corpus sources are ASCII
-        return starts[ln - 1] + col
+        # ast columns are utf-8 byte offsets: convert to characters
+        line = src_lines[ln - 1].encode("utf-8")
+        return starts[ln - 1] + len(line[:col].decode("utf-8", errors="ignore"))
 
     def walk(sn, rn, parent_region, in_fstring=False):
         reg = getattr(sn, "region", None)
